@@ -6,8 +6,9 @@
      numbers_listing_exact; without cleanup under the hypotheses of numbers_stream alone: numbers_listing_exact_nocleanup;
    - NumbersDirect: numbersdirect_listing_exact;  - Timestamps: timestamps_listing_exact.
    Condition on the selector (custom_ok, custom_ok_d, custom_ok_ts): a custom "current" infix is not the infix of a rotated
-   file, and rCURRENT is not asked for twice - the examples custom_twice_listed_twice and custom_number_infix_listed show
-   that the condition is needed (there the model's listing and the oracle differ). *)
+   file - such an infix lists that file, as asked, and the oracle does not count it as current (example
+   custom_number_infix_listed).  rCURRENT asked for twice (r_current and the custom infix "rCURRENT") is listed once:
+   example custom_twice_listed_once. *)
 Require Import FL.Base.Bytes FL.Base.BytesFacts FL.Base.PathName FL.Fs.Fs FL.Fs.FsFacts FL.Time.Civil FL.Time.TsFormat
   FL.Names.FileSpec FL.Names.NamesFacts FL.Names.SortFacts FL.Names.FamilyFacts FL.Flw.Model FL.Flw.ModelFacts FL.Flw.NumFs
   FL.Flw.NumInv FL.Flw.Run FL.Flw.RunFacts FL.Flw.NumRun FL.Oracles.O_Flw FL.Oracles.ReaderOrder FL.Oracles.O_Names
@@ -61,7 +62,7 @@ Qed.
 Definition custom_ok (sel : selector) : Prop :=
   match sel_custom sel with
   | None => True
-  | Some x => (forall i, x <> number_infix i) /\ (x = cur_infix -> sel_rcur sel = false)
+  | Some x => forall i, x <> number_infix i
   end.
 
 (* the four filters of existing_rot as one list *)
@@ -71,8 +72,12 @@ Definition p_gz (off : Z) (c : config) (sel : selector) (n : bytes) : bool :=
   sel_gz sel && qf off (fsfx (c_spec c)) (fixed0 c) IFNum (Some gz_sfx) n.
 Definition p_cur (off : Z) (c : config) (sel : selector) (n : bytes) : bool :=
   sel_rcur sel && qf off (fsfx (c_spec c)) (fixed0 c) (IFEq cur_infix) (fsfx (c_spec c)) n.
+(* the custom current infix: not a second time, if it is rCURRENT and rCURRENT is listed already *)
 Definition p_custom (off : Z) (c : config) (sel : selector) (n : bytes) : bool :=
-  match sel_custom sel with Some x => qf off (fsfx (c_spec c)) (fixed0 c) (IFEq x) (fsfx (c_spec c)) n | None => false end.
+  match sel_custom sel with
+  | Some x => if sel_rcur sel && beq x cur_infix then false else qf off (fsfx (c_spec c)) (fixed0 c) (IFEq x) (fsfx (c_spec c)) n
+  | None => false
+  end.
 
 Lemma filter_false {A} (l : list A) : filter (fun _ => false) l = [].
 Proof. induction l; cbn [filter]; auto. Qed.
@@ -82,9 +87,9 @@ Lemma existing_rot_filters off c f sel :
   let rel := related_files f (fsfx (c_spec c)) (fixed0 c) in
   Some (((filter (p_plain off c sel) rel ++ filter (p_gz off c sel) rel) ++ filter (p_cur off c sel) rel) ++ filter (p_custom off c sel) rel).
 Proof.
-  unfold existing_rot, p_plain, p_gz, p_cur, p_custom. rewrite !filter_files_total. cbv zeta.
-  destruct (sel_plain sel), (sel_gz sel), (sel_rcur sel); cbn [andb app_opt]; rewrite ?filter_false;
-    (destruct (sel_custom sel); [rewrite filter_files_total|]; cbn [app_opt]; rewrite ?filter_false; reflexivity).
+  unfold existing_rot, p_plain, p_gz, p_cur, p_custom. cbv zeta.
+  destruct (sel_custom sel) as [y|]; rewrite ?filter_files_total; [destruct (sel_rcur sel && beq y cur_infix)|];
+    destruct (sel_plain sel), (sel_gz sel), (sel_rcur sel); cbn [andb app_opt]; cbv iota; rewrite ?filter_false; reflexivity.
 Qed.
 
 (* ------------------------------------------------------------------ the names of the directory, one by one *)
@@ -126,6 +131,19 @@ Qed.
 Lemma number_infix_ne_cur i : beq (number_infix i) cur_infix = false.
 Proof. apply beq_neq. apply number_infix_not_cur. Qed.
 
+(* what the custom current infix adds for the file rCURRENT *)
+Definition cur_custom (sel : selector) : bool :=
+  match sel_custom sel with Some x => if sel_rcur sel && beq x cur_infix then false else beq cur_infix x | None => false end.
+
+Lemma cur_custom_spec sel :
+  (sel_rcur sel = true -> cur_custom sel = false)
+  /\ sel_rcur sel || cur_custom sel = sel_rcur sel || match sel_custom sel with Some x => beq cur_infix x | None => false end.
+Proof.
+  unfold cur_custom. destruct (sel_custom sel) as [x|]; [|split; reflexivity].
+  rewrite (beq_sym cur_infix x). destruct (sel_rcur sel), (beq x cur_infix); cbn [andb orb]; split;
+    first [discriminate | intros; reflexivity].
+Qed.
+
 Section Names.
 Variables (off : Z) (c : config) (crit : criterion) (k : cleanup) (sel : selector).
 Hypothesis Hrot : c_rot c = Some (crit, NNumbers, k).
@@ -138,9 +156,9 @@ Let sfx := fsfx (c_spec c).
 Lemma cname_filters :
   p_plain off c sel (cname c) = false /\ p_gz off c sel (cname c) = false
   /\ p_cur off c sel (cname c) = sel_rcur sel
-  /\ p_custom off c sel (cname c) = match sel_custom sel with Some x => beq cur_infix x | None => false end.
+  /\ p_custom off c sel (cname c) = cur_custom sel.
 Proof.
-  unfold p_plain, p_gz, p_cur, p_custom. rewrite !qf_cname, !andb_false_r. split; [reflexivity|]. split; [reflexivity|].
+  unfold p_plain, p_gz, p_cur, p_custom, cur_custom. rewrite !qf_cname, !andb_false_r. split; [reflexivity|]. split; [reflexivity|].
   unfold qf. rewrite candidate_cname. cbn [filter_infix]. rewrite beq_refl, andb_true_r. split; reflexivity.
 Qed.
 
@@ -162,7 +180,8 @@ Proof.
   split; [reflexivity|]. split; [reflexivity|]. unfold qf. rewrite candidate_rname. cbn [filter_infix].
   rewrite number_infix_ne_cur, andb_false_r. split; [reflexivity|].
   unfold custom_ok in Hsel. destruct (sel_custom sel) as [x|]; [|reflexivity].
-  apply beq_neq. intros E. exact (proj1 Hsel _ (eq_sym E)).
+  assert (E : beq (number_infix (N.of_nat i)) x = false) by (apply beq_neq; intros E; exact (Hsel _ (eq_sym E))).
+  rewrite E. destruct (sel_rcur sel && beq x cur_infix); reflexivity.
 Qed.
 
 Lemma rname_selected i d : selected sel c (rname c i, 0%N, d) = sel_plain sel.
@@ -179,7 +198,7 @@ Lemma gname_filters i :
 Proof.
   unfold p_plain, p_gz, p_cur, p_custom. rewrite (qf_gname_plain off c i Hsfx), (qf_gname_gz off c i Hsfx), andb_true_r, andb_false_r.
   split; [reflexivity|]. split; [reflexivity|]. unfold qf. rewrite (candidate_gname c i Hsfx), andb_false_r.
-  split; [reflexivity|]. destruct (sel_custom sel); reflexivity.
+  split; [reflexivity|]. destruct (sel_custom sel) as [x|]; [destruct (sel_rcur sel && beq x cur_infix)|]; reflexivity.
 Qed.
 
 Lemma gname_selected i d : selected sel c (gname c i, 1%N, d) = sel_gz sel.
@@ -227,9 +246,7 @@ Lemma filters_vs_oracle n : In n (dir_names f) ->
 Proof.
   intros I. destruct (dir_cases n I) as [[d -> Es|i d -> Es|i d -> Es] _]; rewrite Es.
   - destruct cname_filters as (-> & -> & -> & ->). rewrite cname_selected. cbn [orb].
-    split; [discriminate|]. split; [discriminate|]. split; [|reflexivity].
-    intros Hr. unfold custom_ok in Hsel. destruct (sel_custom sel) as [x|]; [|reflexivity].
-    apply beq_neq. intros E. rewrite (proj2 Hsel (eq_sym E)) in Hr. discriminate.
+    split; [discriminate|]. split; [discriminate|]. exact (cur_custom_spec sel).
   - destruct (rname_filters i) as (-> & -> & -> & ->). rewrite rname_selected, !orb_false_r. auto.
   - destruct (gname_filters i) as (-> & -> & -> & ->). rewrite gname_selected, !orb_false_r. cbn [orb]. split; [discriminate | auto].
 Qed.
@@ -363,20 +380,28 @@ Proof.
   - split; [exact ex_sfx_ok | vm_compute; discriminate].
 Qed.
 
-(* custom_ok is needed.  (1) rCURRENT asked for twice - as r_current and as the custom current infix "rCURRENT": the listing
-   returns the file twice, the oracle expects it once.  (2) a custom current infix that is the infix of a rotated file: the
-   listing returns that file (twice, when the plain files are asked for as well), the oracle does not count it as current. *)
-Example custom_twice_listed_twice :
+(* rCURRENT asked for twice - as r_current and as the custom current infix "rCURRENT" -: the file is listed once (the repaired
+   listing leaves out the custom filter in this case), the oracle accepts, and the selector satisfies custom_ok *)
+Example custom_twice_listed_once :
   let sel := {| sel_plain := false; sel_gz := false; sel_rcur := true; sel_custom := Some cur_infix |} in
-  snd (step lx_x (OQuery sel)) = ObsList 0%N [bs "a_rCURRENT.log"; bs "a_rCURRENT.log"]
+  snd (step lx_x (OQuery sel)) = ObsList 0%N [bs "a_rCURRENT.log"]
   /\ expected_listing sel lx_c (snap_of lx_x) = [bs "a_rCURRENT.log"]
-  /\ oracle_listing sel lx_c (snap_of lx_x) [bs "a_rCURRENT.log"; bs "a_rCURRENT.log"] = false
-  /\ ~ custom_ok sel.
+  /\ oracle_listing sel lx_c (snap_of lx_x) [bs "a_rCURRENT.log"] = true
+  /\ custom_ok sel.
 Proof.
   cbv zeta. split; [vm_compute; reflexivity|]. split; [vm_compute; reflexivity|]. split; [vm_compute; reflexivity|].
-  intros [_ H]. specialize (H eq_refl). discriminate H.
+  intros i E. exact (number_infix_not_cur i (eq_sym E)).
 Qed.
 
+(* the custom current infix alone lists rCURRENT as well *)
+Example custom_rcurrent_alone :
+  let sel := {| sel_plain := false; sel_gz := false; sel_rcur := false; sel_custom := Some cur_infix |} in
+  snd (step lx_x (OQuery sel)) = ObsList 0%N [bs "a_rCURRENT.log"]
+  /\ oracle_listing sel lx_c (snap_of lx_x) [bs "a_rCURRENT.log"] = true.
+Proof. cbv zeta. split; vm_compute; reflexivity. Qed.
+
+(* custom_ok is needed for the oracle (not a defect of the listing): a custom current infix that is the infix of a rotated file
+   lists that file, as asked (twice, when the plain files are asked for as well); the oracle does not count it as current *)
 Example custom_number_infix_listed :
   let sel := {| sel_plain := false; sel_gz := false; sel_rcur := false; sel_custom := Some (bs "r00004") |} in
   snd (step lx_x (OQuery sel)) = ObsList 0%N [bs "a_r00004.log"]
@@ -385,7 +410,7 @@ Example custom_number_infix_listed :
   /\ ~ custom_ok sel.
 Proof.
   cbv zeta. split; [vm_compute; reflexivity|]. split; [vm_compute; reflexivity|]. split; [vm_compute; reflexivity|].
-  intros [H _]. apply (H 4%N). vm_compute. reflexivity.
+  intros H. apply (H 4%N). vm_compute. reflexivity.
 Qed.
 
 (* ====================================================================================================================
@@ -500,7 +525,8 @@ Proof.
   split; [reflexivity|]. split; [reflexivity|]. unfold qf. rewrite candidate_rname. cbn [filter_infix].
   rewrite number_infix_ne_cur, andb_false_r. split; [reflexivity|].
   unfold custom_ok_d in Hsel. destruct (sel_custom sel) as [x|]; [|reflexivity].
-  apply beq_neq. intros E. exact (Hsel _ (eq_sym E)).
+  assert (E : beq (number_infix (N.of_nat i)) x = false) by (apply beq_neq; intros E; exact (Hsel _ (eq_sym E))).
+  rewrite E. destruct (sel_rcur sel && beq x cur_infix); reflexivity.
 Qed.
 
 Lemma rname_selected_d c crit k sel i d : c_rot c = Some (crit, NNumbersDirect, k) -> sfx_ok (c_spec c) ->
@@ -600,9 +626,7 @@ Proof.
     + intros n In_. destruct (Cases n In_) as [_ [d [Es' [->|[i ->]]]]]; rewrite Es'.
       * destruct (cname_filters (woff (s_w x)) c sel) as (-> & -> & -> & ->).
         rewrite (cname_selected c crit KNever sel Hrot G d). cbn [orb].
-        split; [discriminate|]. split; [discriminate|]. split; [|reflexivity].
-        intros Hr. unfold custom_ok in Hsel. destruct (sel_custom sel) as [y|]; [|reflexivity].
-        apply beq_neq. intros E. rewrite (proj2 Hsel (eq_sym E)) in Hr. discriminate.
+        split; [discriminate|]. split; [discriminate|]. exact (cur_custom_spec sel).
       * destruct (rname_filters (woff (s_w x)) c sel G Hsel i) as (-> & -> & -> & ->).
         rewrite (rname_selected c crit KNever sel Hrot G i d), !orb_false_r. auto.
   - destruct R as [Es [Q [Hn _]]]. rewrite Es. cbn [new_flw f_poisoned]. unfold query. cbn [new_flw f_cfg f_inner]. rewrite Hrot.
@@ -639,16 +663,16 @@ Lemma existing_rot_filters_ts off c f sel :
   let rel := related_files f (fsfx (c_spec c)) (fixed0 c) in
   Some (((filter (pt_plain off c sel) rel ++ filter (pt_gz off c sel) rel) ++ filter (p_cur off c sel) rel) ++ filter (p_custom off c sel) rel).
 Proof.
-  unfold existing_rot, pt_plain, pt_gz, p_cur, p_custom. rewrite !filter_files_total. cbv zeta.
-  destruct (sel_plain sel), (sel_gz sel), (sel_rcur sel); cbn [andb app_opt]; rewrite ?filter_false;
-    (destruct (sel_custom sel); [rewrite filter_files_total|]; cbn [app_opt]; rewrite ?filter_false; reflexivity).
+  unfold existing_rot, pt_plain, pt_gz, p_cur, p_custom. cbv zeta.
+  destruct (sel_custom sel) as [y|]; rewrite ?filter_files_total; [destruct (sel_rcur sel && beq y cur_infix)|];
+    destruct (sel_plain sel), (sel_gz sel), (sel_rcur sel); cbn [andb app_opt]; cbv iota; rewrite ?filter_false; reflexivity.
 Qed.
 
-(* a custom current infix is no time stamp, and rCURRENT is not asked for twice *)
+(* a custom current infix is no time stamp of a rotated file *)
 Definition custom_ok_ts (sel : selector) : Prop :=
   match sel_custom sel with
   | None => True
-  | Some x => (forall e t, in_years e t -> x <> tsx e t) /\ (x = cur_infix -> sel_rcur sel = false)
+  | Some x => forall e t, in_years e t -> x <> tsx e t
   end.
 
 (* a plain name of the family does not look like an archive *)
@@ -684,9 +708,9 @@ Hypothesis Hsel : custom_ok_ts sel.
 Lemma cname_filters_ts :
   pt_plain off c sel (cname c) = false /\ pt_gz off c sel (cname c) = false
   /\ p_cur off c sel (cname c) = sel_rcur sel
-  /\ p_custom off c sel (cname c) = match sel_custom sel with Some x => beq cur_infix x | None => false end.
+  /\ p_custom off c sel (cname c) = cur_custom sel.
 Proof.
-  unfold pt_plain, pt_gz, p_cur, p_custom, qf. rewrite candidate_cname. cbn [filter_infix]. rewrite cur_infix_no_stamp, andb_false_r.
+  unfold pt_plain, pt_gz, p_cur, p_custom, cur_custom, qf. rewrite candidate_cname. cbn [filter_infix]. rewrite cur_infix_no_stamp, andb_false_r.
   split; [reflexivity|]. split.
   - unfold infix_candidate. rewrite (cname_no_gz c G). apply andb_false_r.
   - rewrite beq_refl, andb_true_r. split; reflexivity.
@@ -712,7 +736,8 @@ Proof.
   { apply beq_neq. intros E. apply (tsx_app_not_cur e (fst key) [] [] Y). rewrite !app_nil_r. exact E. }
   rewrite Nc, andb_false_r. split; [reflexivity|].
   unfold custom_ok_ts in Hsel. destruct (sel_custom sel) as [x|]; [|reflexivity].
-  apply beq_neq. intros E. exact (proj1 Hsel e _ Y (eq_sym E)).
+  assert (E : beq (tsx e (fst key)) x = false) by (apply beq_neq; intros E; exact (Hsel e _ Y (eq_sym E))).
+  rewrite E. destruct (sel_rcur sel && beq x cur_infix); reflexivity.
 Qed.
 
 Lemma kname_selected_ts key d : in_years e (fst key) -> selected sel c (kname c e key, 0%N, d) = sel_plain sel.
@@ -758,9 +783,7 @@ Proof.
     + intros m In_. destruct (Cases m In_) as [_ [d [Es' [->|[key [Yi ->]]]]]]; rewrite Es'.
       * destruct (cname_filters_ts (woff (s_w x)) c sel G) as (-> & -> & -> & ->).
         rewrite (cname_selected_ts c crit KNever sel Hrot G d). cbn [orb].
-        split; [discriminate|]. split; [discriminate|]. split; [|reflexivity].
-        intros Hr. unfold custom_ok_ts in Hsel. destruct (sel_custom sel) as [y|]; [|reflexivity].
-        apply beq_neq. intros E. rewrite (proj2 Hsel (eq_sym E)) in Hr. discriminate.
+        split; [discriminate|]. split; [discriminate|]. exact (cur_custom_spec sel).
       * destruct (kname_filters_ts (woff (s_w x)) c sel e G Hsel key Yi) as (-> & -> & -> & ->).
         rewrite (kname_selected_ts c crit KNever sel e Hrot G key d Yi), !orb_false_r. auto.
   - destruct R as [Es [Q [Hn _]]]. rewrite Es. cbn [new_flw f_poisoned]. unfold query. cbn [new_flw f_cfg f_inner]. rewrite Hrot.
